@@ -2,6 +2,7 @@ package main
 
 import (
 	"fmt"
+	"os"
 	"go/types"
 	"math/big"
 	"strconv"
@@ -260,6 +261,9 @@ func (e *Engine) checkAssert(st *State, name string, c *Term, in ssa.Instruction
 		return
 	}
 	bad := e.ts.Not(c)
+	if e.trace || os.Getenv("VERIF_DUMP_ASSERT") != "" {
+		fmt.Fprintf(os.Stderr, "ASSERT %s: %s\n", name, termString(c, 6))
+	}
 	sat, model, certain := e.feasible(st, bad)
 	if !sat {
 		return
@@ -271,15 +275,7 @@ func (e *Engine) checkAssert(st *State, name string, c *Term, in ssa.Instruction
 	fl := &Failure{kind: "assert", name: name, msg: "assertion " + name + " can fail", pos: e.pos(in)}
 	e.fillStack(st, fl)
 	e.recordViolation(st, fl, model)
-	// continue assuming the assertion holds
-	okSat, okModel, okCertain := e.feasible(st, c)
-	if !okSat {
-		st.status = Aborted
-		return
-	}
-	st.pc = append(st.pc, c)
-	st.model = okModel
-	st.uncertain = st.uncertain || !okCertain
+	// the path continues without assuming the failed assertion (later assertions may fail for the same reason)
 }
 
 // ---- stdlib models ----
